@@ -1,0 +1,204 @@
+// Copyright 2023 Ross Light
+// SPDX-License-Identifier: ISC
+
+//go:build verif
+
+package commonmark
+
+// Contracts for the inline byte reader (inlines.go): the cursor over the
+// unparsed/text/indent nodes of a block that the link, HTML and code-span
+// scanners read through.  Comments only.
+
+// ---------------------------------------------------------------------------
+// nodeIndexForPosition: the first node of the slice whose span contains pos,
+// looking no further than the first node that starts after pos.
+// ---------------------------------------------------------------------------
+
+//@ spec NodeHas(n *Inline, pos int) bool = !isnil(n) && n.span.Start <= pos && pos < n.span.End && 0 <= n.span.Start
+//@ spec NodesOK(s []*Inline) bool = forall k in [0, len(s)): !isnil(s[k])
+
+//@ func nodeIndexForPosition
+//@   requires[nodes] NodesOK(spans)
+//@   requires[pos] 0 <= pos && pos < 1152921504606846976
+//@   ensures[range] result == -1 || (0 <= result && result < len(spans))
+//@   ensures[has] result >= 0 ==> (spans[result].span.Start <= pos && pos < spans[result].span.End)
+//@   ensures[first] result >= 0 ==> (forall k in [0, result): spans[k].span.Start <= pos && !(pos < spans[k].span.End && 0 <= spans[k].span.Start))
+//@   ensures[zero] (len(spans) > 0 && 0 <= spans[0].span.Start && spans[0].span.Start <= pos && pos < spans[0].span.End) ==> result == 0
+//@   loop 0: invariant[before] forall k in [0, _i): spans[k].span.Start <= pos && !(pos < spans[k].span.End && 0 <= spans[k].span.Start)
+//@   serves C02, C04
+
+// ---------------------------------------------------------------------------
+// The reader.  RdOK: the nodes it walks are non-nil, have valid spans inside
+// the source, and are in source order without overlapping (what C02 states of
+// the children of a node; assumed where a reader is constructed, since the
+// constructing code is not under contract).  The position is a valid index or
+// one past a node.
+// ---------------------------------------------------------------------------
+
+//@ fieldrange commonmark.Inline.indent 0 1152921504606846976 an indent width is a column count within one line (lengths below 2^60)
+//@ spec NodesIn(s []*Inline, n int) bool = forall k in [0, len(s)): !isnil(s[k]) && 0 <= s[k].span.Start && s[k].span.Start <= s[k].span.End && s[k].span.End <= n
+//@ spec NodesSorted(s []*Inline) bool = forall k in [0, len(s) - 1): s[k].span.End <= s[k + 1].span.Start
+//@ -- an indent node covers spaces and tabs only
+//@ spec AllBlank(src []byte, a int, b int) bool = b <= a ? true : ((src[b - 1] == 0x20 || src[b - 1] == 0x09) && AllBlank(src, a, b - 1))
+//@ spec NodesBlank(s []*Inline, src []byte) bool = forall k in [0, len(s)): s[k].kind == IndentKind ==> AllBlank(src, s[k].span.Start, s[k].span.End)
+
+//@ lemma AllBlank_at(src []byte, a int, b int, j int)
+//@   requires AllBlank(src, a, b) && a <= j && j < b
+//@   ensures src[j] == 0x20 || src[j] == 0x09
+//@   decreases b - a
+//@   ih AllBlank_at(src, a, b - 1, j)
+
+//@ spec RdOK(r *inlineByteReader) bool = !isnil(r) && NodesIn(r.spans, len(r.source)) && NodesSorted(r.spans) && NodesBlank(r.spans, r.source) && 0 <= r.pos && r.pos <= len(r.source) && len(r.source) < 1152921504606846976 && 0 <= r.virtualPos && r.virtualPos <= 1152921504606846976 && -1 <= r.prevPos && r.prevPos <= len(r.source)
+
+//@ -- the node under the position: first node of the remaining list containing it; the list is cut to start there
+//@ func (*inlineByteReader).currentNode
+//@   requires[ok] RdOK(r)
+//@   modifies r.spans
+//@   ensures[ok] RdOK(r)
+//@   ensures[nil] isnil(result) ==> len(r.spans) == 0
+//@   ensures[node] !isnil(result) ==> (len(r.spans) > 0 && result == r.spans[0] && result.span.Start <= r.pos && r.pos < result.span.End)
+//@   ensures[suffix] len(r.spans) <= len(old(r.spans)) && (len(r.spans) > 0 ==> (sameArray(r.spans, old(r.spans)) && offsetOf(r.spans) + len(r.spans) == offsetOf(old(r.spans)) + len(old(r.spans))))
+//@   ensures[zero] (len(old(r.spans)) > 0 && old(r.spans[0].span.Start) <= r.pos && r.pos < old(r.spans[0].span.End)) ==> (len(r.spans) == len(old(r.spans)) && aliases(r.spans, old(r.spans)))
+//@   serves C02, C04
+
+//@ -- the byte under the position as the scanners see it: 0 at the end, a space inside an indent node, a byte of
+//@ -- U+FFFD for a NUL; any other value is the source byte itself
+//@ func (*inlineByteReader).current
+//@   requires[ok] RdOK(r)
+//@   modifies r.spans
+//@   ensures[ok] RdOK(r)
+//@   ensures[byte] (result != 0 && result != 0x20 && result < 0x80) ==> (r.pos < len(r.source) && r.source[r.pos] == result)
+//@   ensures[suffix] len(r.spans) <= len(old(r.spans)) && (len(r.spans) > 0 ==> (sameArray(r.spans, old(r.spans)) && offsetOf(r.spans) + len(r.spans) == offsetOf(old(r.spans)) + len(old(r.spans))))
+//@   ensures[zero] (len(old(r.spans)) > 0 && old(r.spans[0].span.Start) <= r.pos && r.pos < old(r.spans[0].span.End)) ==> (len(r.spans) == len(old(r.spans)) && aliases(r.spans, old(r.spans)))
+//@   nosafety index the NUL replacement table is indexed by virtualPos, which is below 3 outside indent nodes (an invariant of next() across node changes that is not carried by RdOK)
+//@   serves C02, C04
+
+//@ func (*inlineByteReader).remainingNodeBytes
+//@   requires[ok] RdOK(r)
+//@   modifies r.spans
+//@   ensures[ok] RdOK(r)
+//@   ensures[blank] (len(result) > 0 && r.spans[0].kind == IndentKind) ==> (result[0] == 0x20 || result[0] == 0x09)
+//@   use AllBlank_at(r.source, r.spans[0].span.Start, r.spans[0].span.End, r.pos)
+//@   ensures[rest] len(result) > 0 ==> (len(r.spans) > 0 && r.spans[0].span.Start <= r.pos && r.pos < r.spans[0].span.End && len(result) == r.spans[0].span.End - r.pos
+//@       && sameArray(result, r.source) && offsetOf(result) == offsetOf(r.source) + r.pos)
+//@   ensures[suffix] len(r.spans) <= len(old(r.spans)) && (len(r.spans) > 0 ==> (sameArray(r.spans, old(r.spans)) && offsetOf(r.spans) + len(r.spans) == offsetOf(old(r.spans)) + len(old(r.spans))))
+//@   ensures[zero] (len(old(r.spans)) > 0 && old(r.spans[0].span.Start) <= r.pos && r.pos < old(r.spans[0].span.End)) ==> (len(r.spans) == len(old(r.spans)) && aliases(r.spans, old(r.spans)))
+//@   serves C02, C04
+
+//@ func (*inlineByteReader).jumped
+//@   requires RdOK(r)
+//@   ensures[def] result <==> (r.prevPos >= 0 && r.pos - r.prevPos > 1)
+//@   serves C04
+
+//@ func computeNullVirtualPosition
+//@   requires 0 <= pos
+//@   ensures[range] 0 <= result && result < 3
+//@   loop 0: invariant[start] 0 <= start && start <= pos
+//@   loop 0: decreases start
+//@   serves C04
+
+//@ -- one step of the reader: inside a node to the next byte (an indent node is read as IndentWidth virtual spaces
+//@ -- without moving); at the end of a node to the start of the next unparsed, text or indent node (a jump); after
+//@ -- the last node one past it, reporting false.  The position never moves backwards.
+//@ func (*inlineByteReader).next
+//@   requires[ok] RdOK(r)
+//@   modifies r.spans, r.pos, r.virtualPos, r.prevPos
+//@   ensures[ok] RdOK(r)
+//@   ensures[prev] (result || r.pos != old(r.pos)) ==> r.prevPos == old(r.pos)
+//@   ensures[mono] r.pos >= old(r.pos) && (!result ==> r.pos <= old(r.pos) + 1)
+//@   ensures[inside] (len(old(r.spans)) > 0 && old(r.spans[0].span.Start) <= old(r.pos) && old(r.pos) + 1 < old(r.spans[0].span.End) && old(r.spans[0].kind) != IndentKind)
+//@       ==> (result && r.pos == old(r.pos) + 1 && len(r.spans) == len(old(r.spans)) && aliases(r.spans, old(r.spans)))
+//@   ensures[virt] (result && r.pos == old(r.pos)) ==> r.virtualPos == old(r.virtualPos) + 1
+//@   ensures[land] (result && r.pos > old(r.pos) + 1) ==> (len(r.spans) > 0 && r.pos == r.spans[0].span.Start && r.pos < r.spans[0].span.End + 1
+//@       && (r.spans[0].kind == UnparsedKind || r.spans[0].kind == TextKind || r.spans[0].kind == IndentKind))
+//@   ensures[suffix] len(r.spans) <= len(old(r.spans)) && (len(r.spans) > 0 ==> (sameArray(r.spans, old(r.spans)) && offsetOf(r.spans) + len(r.spans) == offsetOf(old(r.spans)) + len(old(r.spans))))
+//@   loop 0: invariant[nodes] !isnil(r) && !isnil(node) && NodesIn(r.spans, len(r.source)) && NodesSorted(r.spans) && NodesBlank(r.spans, r.source) && (len(r.spans) > 0 ==> r.spans[0].span.Start >= node.span.End)
+//@   loop 0: invariant[same] r.pos == old(r.pos) && r.prevPos == old(r.prevPos) && r.virtualPos == old(r.virtualPos) && node.span.Start <= r.pos && r.pos < node.span.End && node.span.End <= len(r.source) && len(r.source) == len(old(r.source))
+//@   loop 0: invariant[suffix] len(r.spans) < len(old(r.spans)) && (len(r.spans) > 0 ==> (sameArray(r.spans, old(r.spans)) && offsetOf(r.spans) + len(r.spans) == offsetOf(old(r.spans)) + len(old(r.spans))))
+//@   loop 0: invariant[frame] framed()
+//@   loop 0: decreases len(r.spans)
+//@   serves C02, C04
+
+// ---------------------------------------------------------------------------
+// Scanners over the reader.  Each keeps RdOK, never moves the reader backwards
+// and writes nothing but the reader's own fields.  RdMeasure decreases with
+// every successful next(): by at least one position, or by one virtual column
+// inside an indent node.
+// ---------------------------------------------------------------------------
+
+//@ spec RdMeasure(r *inlineByteReader) int = (len(r.source) - r.pos) * 1152921504606846977 + (1152921504606846976 - r.virtualPos)
+
+//@ func skipLinkSpace
+//@   requires[ok] RdOK(r)
+//@   modifies r.spans, r.pos, r.virtualPos, r.prevPos
+//@   ensures[ok] RdOK(r) && r.pos >= old(r.pos)
+//@   loop 0: invariant[ok] RdOK(r) && r.pos >= old(r.pos) && framed()
+//@   loop 0: decreases RdMeasure(r)
+//@   serves C02, C04
+
+//@ func parseHTMLTagName
+//@   requires[ok] RdOK(r)
+//@   modifies r.spans, r.pos, r.virtualPos, r.prevPos
+//@   ensures[ok] RdOK(r) && r.pos >= old(r.pos)
+//@   loop 0: invariant[ok] RdOK(r) && r.pos >= old(r.pos) && framed()
+//@   loop 0: decreases RdMeasure(r)
+//@   serves C02, C04
+
+//@ func parseHTMLClosingTag
+//@   requires[ok] RdOK(r)
+//@   modifies r.spans, r.pos, r.virtualPos, r.prevPos
+//@   ensures[ok] RdOK(r) && r.pos >= old(r.pos)
+//@   ensures[end] result >= 0 ==> (old(r.pos) < result && result <= len(r.source) && r.source[result - 1] == '>')
+//@   serves C02, C13, C04
+
+//@ func parseHTMLAttribute
+//@   requires[ok] RdOK(r)
+//@   modifies r.spans, r.pos, r.virtualPos, r.prevPos
+//@   ensures[ok] RdOK(r) && r.pos >= old(r.pos)
+//@   loop 0: invariant[ok] RdOK(r) && r.pos >= old(r.pos) && framed()
+//@   loop 0: decreases RdMeasure(r)
+//@   loop 1: invariant[ok] RdOK(r) && r.pos >= old(r.pos) && framed()
+//@   loop 1: decreases RdMeasure(r)
+//@   loop 2: invariant[ok] RdOK(r) && r.pos >= old(r.pos) && framed()
+//@   loop 2: decreases RdMeasure(r)
+//@   loop 3: invariant[ok] RdOK(r) && r.pos >= old(r.pos) && framed()
+//@   loop 3: decreases RdMeasure(r)
+//@   serves C02, C04
+
+//@ func parseHTMLOpenTag
+//@   requires[ok] RdOK(r)
+//@   modifies r.spans, r.pos, r.virtualPos, r.prevPos
+//@   ensures[ok] RdOK(r) && r.pos >= old(r.pos)
+//@   ensures[end] result >= 0 ==> (old(r.pos) < result && result <= len(r.source) && r.source[result - 1] == '>')
+//@   loop 0: invariant[ok] RdOK(r) && r.pos >= old(r.pos) && framed()
+//@   loop 0: decreases RdMeasure(r)
+//@   serves C02, C13, C04
+
+// ---------------------------------------------------------------------------
+// parseHTMLTag (C13, C02): a recognised tag starts at the reader's position
+// with '<', ends right after a '>' inside the source, and is not empty.
+// ---------------------------------------------------------------------------
+
+//@ func parseHTMLTag
+//@   requires[ok] RdOK(r)
+//@   modifies r.spans, r.pos, r.virtualPos, r.prevPos
+//@   ensures[ok] RdOK(r) && r.pos >= old(r.pos)
+//@   ensures[null] result.End < 0 ==> (result.Start == -1 && result.End == -1)
+//@   ensures[shape] result.End >= 0 ==> (result.Start == old(r.pos) && result.Start < result.End && result.End <= len(r.source)
+//@       && r.source[result.Start] == '<' && r.source[result.End - 1] == '>')
+//@   loop 0: invariant[ok] RdOK(r) && r.pos >= old(r.pos) && framed() && old(r.pos) < len(r.source) && r.source[old(r.pos)] == '<'
+//@   loop 0: decreases RdMeasure(r)
+//@   loop 1: invariant[ok] RdOK(r) && r.pos >= old(r.pos) && framed() && old(r.pos) < len(r.source) && r.source[old(r.pos)] == '<'
+//@   loop 1: decreases RdMeasure(r)
+//@   loop 2: invariant[ok] RdOK(r) && r.pos >= old(r.pos) && framed() && old(r.pos) < len(r.source) && r.source[old(r.pos)] == '<'
+//@   loop 2: decreases RdMeasure(r)
+//@   loop 3: invariant[ok] RdOK(r) && r.pos >= old(r.pos) && framed() && old(r.pos) < len(r.source) && r.source[old(r.pos)] == '<' && 0 <= i
+//@   loop 3: decreases 7 - i
+//@   loop 4: invariant[ok] RdOK(r) && r.pos >= old(r.pos) && framed() && old(r.pos) < len(r.source) && r.source[old(r.pos)] == '<'
+//@   loop 4: decreases RdMeasure(r)
+//@   loop 5: invariant[ok] RdOK(r) && framed() && old(r.pos) < len(r.source) && r.source[old(r.pos)] == '<' && 0 <= i && i <= 2
+//@   loop 5: invariant[at] r.pos - i >= old(r.pos) && len(r.spans) > 0 && r.spans[0].span.Start <= r.pos - i && r.pos - i + 3 <= r.spans[0].span.End
+//@   loop 5: invariant[kind] len(r.spans) > 0 && r.spans[0].kind != IndentKind
+//@   loop 5: invariant[pfx] HasPrefixAt(r.source, r.pos - i, "]]>")
+//@   loop 5: decreases 2 - i
+//@   serves C13, C02, C04
